@@ -57,9 +57,50 @@ def new_election(text, o):
     return prof, Election(prof, dict(o))
 
 
+class Budget(Exception):
+    pass
+
+
+class Hang(Exception):
+    pass
+
+
+COUNT_LIMIT = 8.0     # seconds per count; after it, 1.5 s more to tell a stalled iteration from a slow one
+
+
+def state_of(E):
+    return (E.round, str(E.surplus), str(E.quota),
+            tuple((c.cid, c.state, raw(c.vote), raw(c.kf) if c.kf is not None else None) for c in sorted(E.C, key=lambda c: c.cid)),
+            tuple((b.index, raw(b.weight)) for b in E.ballots[:40]))
+
+
 def count_record(text, o, want_weights=True):
-    """count; returns (outcome string, E or None). outcome = 'OK' | 'CRASH <ExcName>'"""
+    """count; returns (outcome string, E or None). outcome = 'OK' | 'CRASH <ExcName>' | 'CRASH Hang' | 'CRASH Timeout'.
+    Hang = the counting state did not change during 1.5 s after the budget ran out (a stalled loop);
+    Timeout = still changing (slow convergence: 'not explored')."""
+    import signal
     prof, E = new_election(text, o)
+    seen = []
+    def on_alarm(signum, frame):
+        try:
+            st = state_of(E)
+        except Exception:
+            st = None
+        if not seen:
+            seen.append(st)
+            signal.setitimer(signal.ITIMER_REAL, 1.5)
+            return
+        raise (Hang() if (st is not None and st == seen[0]) else Budget())
+    old = signal.signal(signal.SIGALRM, on_alarm)
+    signal.setitimer(signal.ITIMER_REAL, COUNT_LIMIT)
+    try:
+        return _count_record(E, want_weights)
+    finally:
+        signal.setitimer(signal.ITIMER_REAL, 0)
+        signal.signal(signal.SIGALRM, old)
+
+
+def _count_record(E, want_weights):
     snaps = []
     if want_weights:
         orig = E.logAction
@@ -71,6 +112,10 @@ def count_record(text, o, want_weights=True):
     try:
         with contextlib.redirect_stdout(io.StringIO()):
             E.count()
+    except Hang:
+        return 'CRASH Hang', E, snaps
+    except Budget:
+        return 'CRASH Timeout', E, snaps
     except Exception as e:      # the exception class is the observation
         return 'CRASH ' + type(e).__name__, E, snaps
     return 'OK', E, snaps
